@@ -41,6 +41,8 @@ Bases == {
   Mk2("l", L(<<E1, I("1"), L(<<I("1")>>), Single("$merge", S("a"))>>), "a", F("1.5")),
   Mk2("l", L(<<Mk2("$merge", S("a"), "a", I("1")), Mk2("$replace", S("a"), "b", S("x")), Mk2("$encode", S("json"), "a", I("1")), E3>>), "a", I("1")),
   L(<<E1, E2, S("x")>>),
+  (* integers that differ by one above 2^53 (one and the same double) *)
+  Mk2("big", I("9007199254740993"), "l", L(<<I("9007199254740992"), I("9007199254740993"), Single("id", I("9223372036854775806")), Single("id", I("9223372036854775807"))>>)),
   EmptyMap,
   I("1"),
   Null
@@ -92,6 +94,9 @@ Fixed == {
   Single("l", L(<<Single("$value", I("1")), Single("$invert", True), S("$required")>>)),
   L(<<I("9")>>), L(<<S("$replace")>>), L(<<Single("$delete", S("x"))>>), L(<<Single("$match", EmptyMap)>>),
   L(<<Mk2("$match", EmptyMap, "$value", Mk2("$replace", True, "n", I("1")))>>),
+  Single("big", I("9007199254740992")), Single("big", I("9007199254740993")),
+  Single("l", L(<<Single("$delete", I("9007199254740993"))>>)), Single("l", L(<<Single("$delete", I("9007199254740994"))>>)),
+  Single("l", L(<<Mk2("$match", Single("id", I("9223372036854775807")), "hit", True)>>)),
   S("y"), I("1"), Null, EmptyMap
 }
 
